@@ -66,6 +66,10 @@ def run_rp(ctx, plans, per_plan, large=()):
             sigs = pt.vary(pt.make_sigs(rng, (T,)), k + k // 4)
             shared = k % 2 == 0
             kwargs = pt.kw_variant(rng, k) if shared else [pt.kw_variant(rng, k + 7 * i) for i in range(T)]
+            if not shared:
+                for i, kw_i in enumerate(kwargs):
+                    if i % 3 == 1:
+                        kw_i.pop('center_extrema', None)          # rows need not name the same settings: what a row leaves out is the library default, not its neighbour's value
             via_group = shared and k % 4 == 2
             rs = k % 3 != 1          # without sample columns also for n_jobs = 1 (k = 7, 22, ...) and for more workers than rows
             n_jobs = [W, W, 1, T + 2, -1][k % 5] if W >= T or k % 5 < 2 else W
@@ -86,6 +90,10 @@ def run_rp(ctx, plans, per_plan, large=()):
         sigs = pt.vary(pt.make_sigs(rng, (T,), n=96), k)
         shared = k % 3 == 2
         kwargs = pt.kw_variant(rng, k) if shared else [pt.kw_variant(rng, k + 5 * i) for i in range(T)]
+        if not shared:
+            for i, kw_i in enumerate(kwargs):
+                if i % 3 == 1:
+                    kw_i.pop('center_extrema', None)
         delays = [float(rng.integers(0, 3)) * 0.01 for _ in range(T)]
         rs_l = (W > 1) if T < 18 else (W == 1)          # with and without sample columns, for a single worker and for several
         case, realised = pt.run_2d(sigs, 64, (8, 12), kwargs, W, None, delays, logdir, via_group=False, return_samples=rs_l)
